@@ -1289,6 +1289,30 @@ def spec_check(ctx, budget):
             if res:
                 _spec_fail(out, "GenBank feature coordinates: minimal_parser / rich_parser / the spans written differ",
                            dict(check="genbank_features", text=ftext, want=feats), res[1], res[2], res[0])
+    # ---- E. Clustal writer / parser pair (exercised only; the writer is not registered in FORMATTERS) ------------
+    from cogent3 import load_aligned_seqs
+    from cogent3.format.clustal import clustal_from_alignment
+
+    for i in range(8 * budget):
+        mt, names, seqs = gen_recset(rng, ragged=False, distinct_trunc=False, small=i % 2 == 0)
+        names = [n.replace(" ", "_") for n in names]  # a Clustal label is whitespace delimited
+        if len(set(names)) != len(names):
+            continue
+        data = dict(zip(names, seqs))
+        wrap = rng.choice([None, 10, 59, 60, 61])
+        p = scratch / "c.aln"
+        got = None
+        try:
+            p.write_text(clustal_from_alignment(data, wrap=wrap))
+            back = load_aligned_seqs(p, moltype=mt)
+            got = back.to_dict()
+        except Exception as e:  # noqa: BLE001
+            got = {"err": type(e).__name__, "msg": str(e)[:120]}
+        out["evaluations"] += 1
+        bump(out, "clustal_wrap", str(wrap))
+        if got != data:
+            _spec_fail(out, "Clustal writer / parser round trip differs", dict(check="clustal", names=names, seqs=seqs, wrap=wrap, moltype=mt),
+                       data, got, "roundtrip:clustal")
     out.pop("_per_sig", None)
     return out
 
